@@ -56,6 +56,9 @@ MODELS = ("lazy_mlp", "mlp", "free_mo")
 CRITERIA = ("erm", "es", "oce", "mse")
 HEDGES = ("none", "stock", "stock+listed")
 PRES = ("fresh", "eval", "stale_grad")
+# two fit() calls on ONE hedger: (optimiser kind of call 1, of call 2)
+SEQUENCES = (("default", "default"), ("sgd_class", "sgd_class"), ("user_class", "user_class"),
+             ("default", "sgd_class"), ("default", "user_inst"), ("sgd_inst", "same_inst"), ("sgd_inst", "default"))
 
 
 # --------------------------------------------------------------------------------------
@@ -246,6 +249,9 @@ def tracked(w):
     if w.mo_module is not None:
         for n, p in w.mo_module.named_parameters():
             out["module_output." + n] = p
+    if getattr(w, "old_model", None) is not None:
+        for n, p in w.old_model.named_parameters():
+            out["replaced_model." + n] = p
     return out
 
 
@@ -277,31 +283,71 @@ def diff_names(a, b):
     return sorted(n for n in set(a) | set(b) if n not in a or n not in b or not same(a[n], b[n]))
 
 
+def calls_of(case):
+    """The fit() calls of one history: the case itself and, when ``then`` is given, a second call on the SAME
+    hedger (same batch size / n_times / validation / init_state / hedge list) with its own optimiser kind and
+    epoch count, optionally after ``hedger.model`` was replaced by a new model."""
+    calls = [{"k": case["k"], "opt": case["opt"], "swap": False}]
+    t = case.get("then")
+    if t:
+        calls.append({"k": t["k"], "opt": t["opt"], "swap": bool(t.get("swap", False))})
+    return calls
+
+
 def prepare(case, events):
-    """World + state of the hedger before the call + the ``optimizer`` argument."""
+    """World + state of the hedger before the first call."""
     w = build_world(case, events)
+    w.old_model = None
+    w.opt_arg = w.opt_cls = None
+    w.case = case
     torch.manual_seed(2000 + case.get("wseed", 0))
-    opt = case["opt"]
+    return w
+
+
+def _set_sinks(w, events):
+    w.events = events
+    w.sim.events = events
+    w.model.probe.sink = events
+
+
+def begin_call(w, case, call, ci, events):
+    """Everything a user does right before the ci-th fit() call: (replace the model,) materialise a lazy model
+    when an optimiser *instance* is to be built, (first call: leave stale gradients / eval mode,) build the
+    ``optimizer`` argument, seed the generator.  Identical on the world under test and on the reference world."""
+    from pfhedge.nn import MultiLayerPerceptron
+    wseed = case.get("wseed", 0)
+    torch.manual_seed((2000 if ci == 0 else 4000) + wseed + ci)
+    if ci > 0:
+        if call["swap"]:
+            F = 2 if case["model"] == "mlp" else 2 + w.H
+            net = MultiLayerPerceptron(F, w.H, n_layers=1, n_units=2, activation=torch.nn.Tanh())
+            new = Probed(net, w.H)
+            new.train(w.hedger.training)
+            w.old_model = w.hedger.model
+            w.hedger.model = new
+            w.model = new
+    _set_sinks(w, events)
+    opt = call["opt"]
     inst = opt.endswith("_inst")
     w.lazy_at_call = any(is_lazy(p) for p in w.hedger.parameters())
     if inst and w.lazy_at_call:
         # the documented way to use an optimiser instance with a lazy model: placeholder forward first
-        ev, w.sim.events, w.model.probe.sink = w.sim.events, None, None
+        _set_sinks(w, None)
         w.derivative.simulate(n_paths=1)
         w.hedger.compute_pl(w.derivative, hedge=w.hedge)
-        w.sim.events, w.model.probe.sink = ev, ev
+        _set_sinks(w, events)
         w.lazy_at_call = False
     params = tracked(w)
-    pre = case.get("pre", "fresh")
-    if pre in ("stale_grad", "used"):
-        for i, (n, p) in enumerate(sorted(params.items())):
-            if not is_lazy(p):
-                p.grad = torch.full_like(p, 0.5 + 0.25 * i)
-    if pre in ("eval", "used"):
-        w.hedger.eval()
-    w.initial_training = w.hedger.training
-    # parameters a user would hand to an optimiser instance: everything trainable in the world
-    trainable = [p for n, p in sorted(params.items())]
+    if ci == 0:
+        pre = case.get("pre", "fresh")
+        if pre in ("stale_grad", "used"):
+            for i, (n, p) in enumerate(sorted(params.items())):
+                if not is_lazy(p):
+                    p.grad = torch.full_like(p, 0.5 + 0.25 * i)
+        if pre in ("eval", "used"):
+            w.hedger.eval()
+    # parameters a user would hand to an optimiser instance: everything trainable and in use
+    trainable = [p for n, p in sorted(params.items()) if not n.startswith("replaced_model.")]
     if opt == "default":
         w.opt_arg, w.opt_cls = None, torch.optim.Adam
     elif opt == "sgd_class":
@@ -312,10 +358,12 @@ def prepare(case, events):
         w.opt_arg, w.opt_cls = torch.optim.SGD(trainable, lr=0.125, momentum=0.5), None
     elif opt == "user_inst":
         w.opt_arg, w.opt_cls = UserOptimizer(trainable, lr=0.125), None
+    elif opt == "same_inst":
+        if ci == 0 or w.opt_cls is not None or w.opt_arg is None:
+            raise HarnessError("C15: 'same_inst' needs a previous call with an optimiser instance")
     else:
         raise KeyError(opt)
-    torch.manual_seed(3000 + case.get("wseed", 0))
-    return w
+    torch.manual_seed(3000 + wseed + 17 * ci)
 
 
 # --------------------------------------------------------------------------------------
@@ -323,9 +371,9 @@ def prepare(case, events):
 # --------------------------------------------------------------------------------------
 
 class Recorder:
-    def __init__(self, w):
+    def __init__(self, w, events):
         self.w = w
-        self.events = w.events
+        self.events = events
         self.params = None
         self.steps = []        # per optimiser step: dict(opt, grads, before, after)
         self.seen_opts = []    # optimisers whose zero_grad()/step() was called while recording
@@ -389,8 +437,8 @@ class Recorder:
         return False
 
 
-def call_fit(w, case):
-    kw = dict(n_epochs=case["k"], n_paths=case["n_paths"], n_times=case["n_times"],
+def call_fit(w, case, call):
+    kw = dict(n_epochs=call["k"], n_paths=case["n_paths"], n_times=case["n_times"],
               init_state=w.init_state, verbose=False, validation=case["validation"])
     if w.hedge is not None:
         kw["hedge"] = w.hedge
@@ -399,8 +447,9 @@ def call_fit(w, case):
     return w.hedger.fit(w.derivative, **kw)
 
 
-def run_reference(w, case):
-    """reference_fit on an identically prepared world; returns (raised, history, per-epoch grads/params)."""
+def run_reference(w, case, call):
+    """reference_fit on an identically prepared world; returns (raised, history, per-epoch grads/params).
+    A class optimiser is built FRESH over the current model's parameters for every call."""
     grads, after = [], []
     params = tracked(w)
 
@@ -416,7 +465,7 @@ def run_reference(w, case):
 
     try:
         hist, opt = reference_fit(
-            w.hedger, w.derivative, w.hedge, make_optimizer, case["k"], case["n_paths"], case["n_times"],
+            w.hedger, w.derivative, w.hedge, make_optimizer, call["k"], case["n_paths"], case["n_times"],
             w.init_state, case["validation"],
             on_grad=lambda e, o: grads.append(snap(tracked(w), grads=True)),
             on_step=lambda e, o: after.append(snap(tracked(w))))
@@ -443,55 +492,78 @@ def classify_case(case):
 
 
 def check_case(ctx, case, stats):
-    site = "Hedger.fit"
+    """One history: [state before, fit (, replace model?, fit)] on the world under test and, call by call,
+    the explicit loop on an identically prepared reference world."""
     mini = {"cases": [case]}
-    events = []
-    w = prepare(case, events)
-    params0 = snap(tracked(w))
-    raised = None
-    history = None
-    with Recorder(w) as rec:
-        try:
-            history = call_fit(w, case)
-        except Exception as e:
-            if _raised_by_harness(e):
-                raise
-            raised = type(e).__name__
-            raised_msg = str(e)[:200]
-    final = snap(tracked(w))
-    # reference on a second, identically prepared world (its events are not needed)
+    calls = calls_of(case)
+    w = prepare(case, [])
     w2 = prepare(case, [])
-    if diff_names(params0, snap(tracked(w2))):
-        raise HarnessError("C15: two preparations of the same case differ (harness nondeterminism)")
-    r_raised, r_hist, r_grads, r_after = run_reference(w2, case)
-    r_final = snap(tracked(w2))
-    k = case["k"]
-    nontrivial = k >= 1 and raised is None and r_raised is None
+    all_nontrivial = True
     stats["runs"] += 1
-    stats["nontrivial"] += int(nontrivial)
-    ctx.outcome((raised, len(events), None if history is None else len(history)))
+    earlier_opts = []
+    for ci, call in enumerate(calls):
+        events = []
+        begin_call(w, case, call, ci, events)
+        params0 = snap(tracked(w))
+        raised = history = None
+        raised_msg = ""
+        with Recorder(w, events) as rec:
+            try:
+                history = call_fit(w, case, call)
+            except Exception as e:
+                if _raised_by_harness(e):
+                    raise
+                raised = type(e).__name__
+                raised_msg = str(e)[:200]
+        final = snap(tracked(w))
+        # the explicit loop on the second world (its events are not needed)
+        begin_call(w2, case, call, ci, [])
+        _set_sinks(w2, None)
+        if ci == 0 and diff_names(params0, snap(tracked(w2))):
+            raise HarnessError("C15: two preparations of the same case differ (harness nondeterminism)")
+        r_raised, r_hist, r_grads, r_after = run_reference(w2, case, call)
+        r_final = snap(tracked(w2))
+        ok = _compare_call(ctx, case, call, ci, w, rec, events, params0, final, history, raised, raised_msg,
+                           r_raised, r_hist, r_grads, r_after, r_final, earlier_opts, mini, stats)
+        earlier_opts += list(rec.seen_opts)
+        all_nontrivial = all_nontrivial and call["k"] >= 1 and raised is None and r_raised is None
+        if not ok:
+            break      # the two worlds have diverged: later calls would only repeat the report
+    stats["nontrivial"] += int(all_nontrivial)
+    if len(calls) > 1:
+        stats["two_call_histories"] = stats.get("two_call_histories", 0) + 1
+
+
+def _compare_call(ctx, case, call, ci, w, rec, events, params0, final, history, raised, raised_msg,
+                  r_raised, r_hist, r_grads, r_after, r_final, earlier_opts, mini, stats):
+    site = "Hedger.fit"
+    pfx = "" if ci == 0 else "second_call:"
+    tag = f"[{classify_case(case)}" + (f" then {call['opt']}{'/new model' if call['swap'] else ''}" if ci else "") + "]"
+    k = call["k"]
+    good = True
+    ctx.outcome((ci, raised, len(events), None if history is None else len(history)))
 
     # exceptions
     if raised != r_raised:
         if raised is not None:
-            cls = f"raises:{raised}"
+            cls = f"{pfx}raises:{raised}"
             if w.lazy_at_call and w.opt_cls is not None and w.H != 1:
                 # classifier: lazy parameters + optimiser class + a hedge list whose length differs from
                 # the number of underliers (the placeholder forward of the lazy initialisation)
                 cls += ":lazy_model_class_optimizer_hedge_list_len_ne_underliers"
             ctx.violation(site, cls, f"fit raised {raised} ({raised_msg}) where the explicit loop "
-                          f"{'raised ' + r_raised if r_raised else 'runs'} [{classify_case(case)}]",
+                          f"{'raised ' + r_raised if r_raised else 'runs'} {tag}",
                           observed=raised, expected=r_raised, block=mini)
         else:
-            ctx.violation(site, f"no_exception:{r_raised}", f"fit returned where the explicit loop raises {r_raised}",
+            ctx.violation(site, f"{pfx}no_exception:{r_raised}", f"fit returned where the explicit loop raises {r_raised} {tag}",
                           observed=None, expected=r_raised, block=mini)
-        return
+        return False
     if raised is not None:
         # both refuse (e.g. a class optimiser over a parameter-free model): nothing may have changed
         if diff_names(params0, final):
-            ctx.violation(site, "raised_but_changed_parameters", "fit raised after changing parameters",
+            ctx.violation(site, f"{pfx}raised_but_changed_parameters", f"fit raised after changing parameters {tag}",
                           observed=diff_names(params0, final), expected=[], block=mini)
-        return
+        return False
 
     # (a) protocol automaton
     lazy_init = bool(w.lazy_at_call and w.opt_cls is not None)
@@ -499,8 +571,9 @@ def check_case(ctx, case, stats):
     try:
         aut.run(events)
     except Reject as r:
-        ctx.violation(site, f"trace:{r.code}", f"event trace rejected by the protocol automaton: {r} "
-                      f"[{classify_case(case)}, k={k}, n_times={case['n_times']}, validation={case['validation']}]",
+        good = False
+        ctx.violation(site, f"{pfx}trace:{r.code}", f"event trace rejected by the protocol automaton: {r} "
+                      f"{tag} k={k}, n_times={case['n_times']}, validation={case['validation']}",
                       observed=[list(map(_j, e)) for e in events[max(0, r.index - 6): r.index + 2]],
                       expected=str(r.expected), block=mini)
     stats["transitions"] += aut.matched
@@ -509,32 +582,42 @@ def check_case(ctx, case, stats):
     # backward is called on a scalar that requires grad
     for shp, rg in rec.backward_info:
         if shp != () or not rg:
-            ctx.violation(site, "backward_operand", f"backward() called on a tensor of shape {shp}, requires_grad={rg}",
+            ctx.violation(site, f"{pfx}backward_operand", f"backward() called on a tensor of shape {shp}, requires_grad={rg}",
                           observed=[list(shp), rg], expected=[[], True], block=mini)
 
-    # (c) which optimiser stepped
+    # (c) which optimiser stepped, how often, over which parameters
     n_steps = len(rec.steps)
     if n_steps != k:
-        ctx.violation(site, "step_count", f"{n_steps} optimiser steps for n_epochs={k}", observed=n_steps,
+        good = False
+        ctx.violation(site, f"{pfx}step_count", f"{n_steps} optimiser steps for n_epochs={k} {tag}", observed=n_steps,
                       expected=k, block=mini)
     if w.opt_cls is None:
         if any(o is not w.opt_arg for o in rec.seen_opts):
-            ctx.violation(site, "optimizer:not_the_supplied_instance", "zero_grad()/step() was called on another optimiser than the supplied instance",
+            ctx.violation(site, f"{pfx}optimizer:not_the_supplied_instance", f"zero_grad()/step() was called on another optimiser than the supplied instance {tag}",
                           observed=[type(o).__name__ for o in rec.seen_opts], expected=type(w.opt_arg).__name__, block=mini)
     elif k >= 1:
         if len(rec.seen_opts) != 1 or type(rec.seen_opts[0]) is not w.opt_cls:
-            ctx.violation(site, "optimizer:construction", "fit must construct and use exactly one optimiser of the requested class",
+            ctx.violation(site, f"{pfx}optimizer:construction", f"fit must construct and use exactly one optimiser of the requested class {tag}",
                           observed=[type(o).__name__ for o in rec.seen_opts], expected=[w.opt_cls.__name__], block=mini)
         else:
             o = rec.seen_opts[0]
             ids = [id(p) for g in o.param_groups for p in g["params"]]
-            model_ids = [id(p) for p in w.hedger.model.parameters()]
+            model_ids = [id(p) for p in w.hedger.model.parameters()]       # the CURRENT model
             hedger_ids = set(id(p) for p in w.hedger.parameters())
             # the documentation says optimizer(hedger.parameters()), the code uses model.parameters();
             # the property only speaks of "the constructed optimiser": anything between the two is accepted
             if not (set(model_ids) <= set(ids) <= hedger_ids) or len(ids) != len(set(ids)):
-                ctx.violation(site, "optimizer:parameter_set", "the constructed optimiser does not own the model's parameters (and only the hedger's)",
-                              observed=len(ids), expected=len(model_ids), block=mini)
+                ctx.violation(site, f"{pfx}optimizer:parameter_set", f"the constructed optimiser does not own the current model's parameters (and only the hedger's) {tag}",
+                              observed=len(set(ids) & set(model_ids)), expected=len(model_ids), block=mini)
+            # an optimiser constructed for this call has taken exactly this call's k steps
+            # (torch optimisers keep a per-parameter step counter; the user optimiser does not)
+            counts = set()
+            for st in o.state.values():
+                if isinstance(st, dict) and "step" in st:
+                    counts.add(int(st["step"]))
+            if counts and counts != {k}:
+                ctx.violation(site, f"{pfx}optimizer:step_counter", f"the optimiser used by this call has taken {sorted(counts)} steps, the call has n_epochs={k} "
+                              f"(an optimiser carried over from an earlier call?) {tag}", observed=sorted(counts), expected=[k], block=mini)
 
     # (b) lock-step with the explicit loop
     reported = False
@@ -544,21 +627,23 @@ def check_case(ctx, case, stats):
             reported = True
             cls = "grad:first_epoch" if e == 0 else "grad:later_epoch_not_fresh"
             n0 = bad[0]
-            ctx.violation(site, cls, f"gradient handed to the optimiser at epoch {e} differs from the gradient of the "
-                          f"criterion on that epoch's batch alone ({len(bad)} parameters, first {n0}) [{classify_case(case)}, pre={case.get('pre')}]",
+            ctx.violation(site, pfx + cls, f"gradient handed to the optimiser at epoch {e} differs from the gradient of the "
+                          f"criterion on that epoch's batch alone ({len(bad)} parameters, first {n0}) {tag} pre={case.get('pre')}",
                           observed=rec.steps[e]["grads"][n0], expected=r_grads[e][n0], block=mini)
         bad = diff_names(rec.steps[e].get("after", {}), r_after[e])
         if bad and not reported:
             reported = True
             n0 = bad[0]
-            ctx.violation(site, "params:after_step", f"parameters after the step of epoch {e} differ from the explicit loop "
-                          f"({len(bad)} parameters, first {n0}) [{classify_case(case)}]",
+            ctx.violation(site, f"{pfx}params:after_step", f"parameters after the step of epoch {e} differ from the explicit loop "
+                          f"({len(bad)} parameters, first {n0}) {tag}",
                           observed=rec.steps[e]["after"].get(n0), expected=r_after[e][n0], block=mini)
     bad = diff_names(final, r_final)
     if bad and not reported:
+        reported = True
         n0 = bad[0]
-        ctx.violation(site, "params:final", f"parameters after fit differ from the explicit loop ({len(bad)} parameters, first {n0}) "
-                      f"[{classify_case(case)}]", observed=final[n0], expected=r_final[n0], block=mini)
+        ctx.violation(site, f"{pfx}params:final", f"parameters after fit differ from the explicit loop ({len(bad)} parameters, first {n0}) "
+                      f"{tag}", observed=final[n0], expected=r_final[n0], block=mini)
+    good = good and not reported
     # parameters outside the optimiser never change
     if n_steps:
         owned = set(id(p) for g in rec.steps[0]["opt"].param_groups for p in g["params"])
@@ -567,19 +652,21 @@ def check_case(ctx, case, stats):
     cur = tracked(w)
     moved = [n for n in diff_names(params0, final) if id(cur[n]) not in owned and params0[n] != "lazy"]
     if moved:
-        ctx.violation(site, "params:changed_outside_optimizer", f"parameters not owned by the optimiser changed: {moved}",
+        ctx.violation(site, f"{pfx}params:changed_outside_optimizer", f"parameters not owned by the optimiser changed: {moved} {tag}",
                       observed=moved, expected=[], block=mini)
-    if k >= 1 and not diff_names(params0, final) and not raised:
+    # the model in use is what gets trained (vacuity guard + replaced-model variant)
+    trainable_now = [n for n in cur if n.startswith("hedger.model.")]
+    if k >= 1 and trainable_now and w.opt_cls is not None and not [n for n in diff_names(params0, final) if n.startswith("hedger.model.")]:
         stats["unchanged"] += 1
 
     # history
     if not case["validation"]:
         if history is not None:
-            ctx.violation(site, "history:not_none", "validation=False must return None", observed=_j(history),
+            ctx.violation(site, f"{pfx}history:not_none", "validation=False must return None", observed=_j(history),
                           expected=None, block=mini)
     else:
         if not isinstance(history, list) or len(history) != k:
-            ctx.violation(site, "history:length", f"history must have one entry per epoch (k={k})",
+            ctx.violation(site, f"{pfx}history:length", f"history must have one entry per epoch (k={k})",
                           observed=_j(history), expected=k, block=mini)
         elif r_hist is not None:
             eps = torch.finfo(torch.get_default_dtype()).eps
@@ -591,12 +678,13 @@ def check_case(ctx, case, stats):
                 h = history[e]
                 ok = isinstance(h, float) and (abs(h - exp) <= tol or (h != h and exp != exp))
                 if not ok:
-                    ctx.violation(site, "history:value", f"history[{e}] is not the mean of the {len(vals)} validation evaluations "
-                                  f"[{classify_case(case)}]", observed=h, expected=exp, block=mini)
+                    ctx.violation(site, f"{pfx}history:value", f"history[{e}] is not the mean of the {len(vals)} validation evaluations "
+                                  f"{tag}", observed=h, expected=exp, block=mini)
                     break
-    if len(ctx.samples) < 2 and k == 2 and case["validation"] and case["n_times"] == 2 and lazy_init:
+    if ci == 0 and len(ctx.samples) < 2 and k == 2 and case["validation"] and case["n_times"] == 2 and lazy_init:
         ctx.sample({"family": "fit_scripted", "case": case, "trace": [list(map(_j, e)) for e in events],
                     "history": history, "reference_history": r_hist})
+    return good
 
 
 def _j(x):
@@ -633,6 +721,8 @@ def _finish_stats(ctx, stats):
         ctx.outcome(("automaton_state",) + tuple(s))
     if stats["unchanged"]:
         ctx.add("runs_with_steps_but_unchanged_parameters", stats["unchanged"])
+    if stats.get("two_call_histories"):
+        ctx.add("two_call_histories", stats["two_call_histories"])
 
 
 @family
@@ -711,6 +801,7 @@ def run(ctx):
     ctx.alphabet("criterion", list(CRITERIA))
     ctx.alphabet("hedge", list(HEDGES))
     ctx.alphabet("pre", list(PRES))
+    ctx.alphabet("two_call_sequences(optimiser of call 1, of call 2)", [list(x) for x in SEQUENCES])
     wseed = ctx.seed % 5
     ctx.run("automaton_selftest", {})
     if ctx.quick:
@@ -726,6 +817,11 @@ def run(ctx):
         blocks = [_expand(p1, wseed), _expand(p2, wseed)]
         for b in blocks:
             ctx.run("fit_scripted", b)
+        two = _two_call_cases(wseed, [(1, 1), (2, 2), (0, 1)], [(True, 1), (False, 1)],
+                              [["erm", "none", None, 3]], ["fresh"])
+        two += _two_call_cases(wseed, [(1, 2)], [(True, 2)], [["oce", "stock+listed", 1.25, 1]], ["used"])
+        ctx.run("fit_scripted", {"cases": two})
+        ctx.run("real_rng", {"cases": _two_call_cases(wseed, [(1, 1)], [(True, 2)], [["erm", "stock+listed", 1.25, 3]], ["fresh"])})
         # real RNG: protocol factors at one content corner
         p3 = {"product": {"k": [0, 1, 2], "val_ntimes": [[False, 1], [True, 2]], "opt": list(OPTS), "model": list(MODELS),
                           "content": [["erm", "stock+listed", 1.25, 3]], "pre": ["fresh"]}}
@@ -748,9 +844,32 @@ def run(ctx):
                                  "criterion": list(CRITERIA), "hedge": list(HEDGES), "init": [None, 1.25],
                                  "n_paths": [3], "pre": ["fresh", "used"]}}
                 rblocks.append(_expand(p, wseed))
+        two = _two_call_cases(wseed, [(k1, k2) for k1 in (0, 1, 2) for k2 in (1, 2)], [(False, 1), (True, 2)],
+                              [[c, h, i, 3] for c in ("erm", "oce") for h, i in (("none", None), ("stock+listed", 1.25))],
+                              ["fresh", "used"])
+        tblocks = [{"cases": two[i:i + 400]} for i in range(0, len(two), 400)]
+        ctx.run_parallel("fit_scripted", tblocks, workers=min(_workers(), len(tblocks)))
+        rtwo = _two_call_cases(wseed, [(1, 1), (2, 2)], [(True, 2)], [["erm", "stock+listed", 1.25, 3], ["oce", "none", None, 3]], ["fresh"])
+        rblocks += [{"cases": rtwo[i:i + 400]} for i in range(0, len(rtwo), 400)]
         ctx.run_parallel("real_rng", rblocks, workers=min(_workers(), len(rblocks)))
     _count_states(ctx)
     ctx.counters["max_depth"] = 2 if ctx.quick else 3   # epochs per history (the bfs bound completed)
+
+
+def _two_call_cases(wseed, k_pairs, vns, contents, pres):
+    """Histories [pre, fit, (replace hedger.model,) fit]: every sequence x model (x replaced or not) x epoch
+    counts x (validation, n_times) x content corner x pre-state."""
+    cases = []
+    for (o1, o2), model, swap, (k1, k2), (val, nt), (crit, hedge, init, n_paths), pre in itertools.product(
+            SEQUENCES, MODELS, [False, True], k_pairs, vns, contents, pres):
+        if swap and (model == "free_mo" or o2 == "same_inst"):
+            continue      # nothing to replace in a parameter-free model; a kept instance keeps its parameters
+        if model == "free_mo" and not o1.endswith("_inst"):
+            continue      # a class optimiser over a parameter-free model is refused (covered by the one-call product)
+        cases.append({"k": k1, "opt": o1, "model": model, "pre": pre, "criterion": crit, "hedge": hedge, "init": init,
+                      "n_paths": n_paths, "validation": val, "n_times": nt, "wseed": wseed,
+                      "then": {"k": k2, "opt": o2, "swap": swap}})
+    return cases
 
 
 def _count_states(ctx):
